@@ -187,6 +187,13 @@ class P(Prop):
             k = rng.randint(3, 12 if tier == "quick" or rng.random() < 0.9 else 100)
             style, ks = knot_seq(rng, k)
             out.append(dict(op="spline", knots=ks, meta={"class": "spline/" + style}))
+        # every knot count 3..40 once (buffer sizes, unrolled loops, odd / even handling)
+        for k in range(3, 41):
+            x, ks = 0.0, []
+            for i in range(k):
+                x += rng.choice([1.0, 0.5, 2.0])
+                ks.append([C.bits(x), C.bits(float(i % 4) * 1.5 + 0.25 * i if i % 3 else float(i))])
+            out.append(dict(op="spline", knots=ks, meta={"class": "spline/count"}))
         for nk in (0, 1, 2):
             style, ks = knot_seq(rng, 3)
             out.append(dict(op="spline", knots=ks[:nk], meta={"class": "spline/rejected"}))
